@@ -22,7 +22,7 @@ func c08Stream() *sStream {
 	ms.version = 3
 	pmt := mkPSI(0x1000, 2, []*mSection{ms}, 0, 0)
 	s.add(pmt, packetize(pmt, 0, 184, true))
-	e1 := mkPESPattern(0x100, 200, true, 1)
+	e1 := mkPESRich(0x100, 200, 1)
 	p1 := packetize(e1, 4, 184, false)
 	s.add(e1, p1)
 	e2 := mkPESPattern(0x100, 9, true, 2)
